@@ -181,6 +181,17 @@ def histories_random(ctx):
         kinds = rng.sample([("tc", PacketType.TC, True, apids[0]), ("tm", PacketType.TM, True, apids[1]),
                             ("sp", rng.choice([PacketType.TC, PacketType.TM]), False, apids[2])], rng.randrange(1, 4))
         ids = [PacketId(t, shf, ap).raw() for _, t, shf, ap in kinds]
+        r_ = rng.random()
+        if r_ < 0.15:
+            # the same ID registered twice (two objects of one application) - or four times
+            ids = ids + [ids[0]] * rng.choice([1, 1, 3])
+        elif r_ < 0.3:
+            # the TC and the TM identifier of ONE application (same APID, other type / secondary header flag): only the
+            # registered ones count
+            k0, t0, shf0, ap0 = kinds[0]
+            other = PacketId(PacketType.TM if t0 == PacketType.TC else PacketType.TC, not shf0 if rng.random() < 0.5 else shf0, ap0).raw()
+            if other not in ids:
+                ids.insert(rng.randrange(len(ids) + 1), other)
         clean = rng.random() < 0.7
         stream = bytearray()
         packets = []
